@@ -2,9 +2,30 @@
 //! Usage: vcore <ID> --tier quick|thorough [--replay file]
 
 mod c01;
+mod c03;
+mod c07;
+mod c08;
+mod c09;
+mod c10;
+mod c14dec;
 mod tcpmodel;
 
 use vkit::report::{load_replay, parse_args, Report};
+
+type RunFn = fn(&mut Report, &str);
+type ReplayFn = fn(&serde_json::Value, &str) -> String;
+
+/// id, evidence level, run, replay
+const CHECKS: &[(&str, &str, RunFn, ReplayFn)] = &[
+    ("C01", "model_checking", c01::run, c01::replay),
+    ("C03", "model_checking", c03::run, c03::replay),
+    ("C07", "model_checking", c07::run, c07::replay),
+    ("C08", "exploration", c08::run, c08::replay),
+    ("C09", "model_checking", c09::run, c09::replay),
+    ("C10", "exploration", c10::run, c10::replay),
+    // decoder part of C14, runnable on its own; ./check C14 runs the vapp binary, which includes it
+    ("C14dec", "exploration", c14dec::run, c14dec::replay),
+];
 
 fn main() {
     let args = parse_args();
@@ -14,26 +35,16 @@ fn main() {
         .stack_size(16 << 20)
         .build_global()
         .ok();
+    let Some(c) = CHECKS.iter().find(|c| c.0 == args.id) else {
+        eprintln!("MACHINERY-ERROR unknown property {}", args.id);
+        std::process::exit(2);
+    };
     if let Some(path) = &args.replay {
         let v = load_replay(path);
-        let w = &v["witness"];
-        let out = match args.id.as_str() {
-            "C01" => c01::replay(w, &args.tier),
-            other => format!("no replay for {other}"),
-        };
-        println!("{out}");
+        println!("{}", (c.3)(&v["witness"], &args.tier));
         return;
     }
-    let code = match args.id.as_str() {
-        "C01" => {
-            let mut r = Report::new("C01", &args.tier, "model_checking");
-            c01::run(&mut r, &args.tier);
-            r.finish()
-        }
-        other => {
-            eprintln!("MACHINERY-ERROR unknown property {other}");
-            2
-        }
-    };
-    std::process::exit(code);
+    let mut r = Report::new(c.0, &args.tier, c.1);
+    (c.2)(&mut r, &args.tier);
+    std::process::exit(r.finish());
 }
